@@ -26,9 +26,9 @@ type c09pScenario struct {
 	// rewrite table: client address index -> effective address indices (disjoint images)
 	Rewrites map[int][]int `json:"rewrites"`
 	Rcpts    []int         `json:"rcpts"`
-	Fail     []int         `json:"failing_effective"` // effective addresses whose per-recipient status is an error
+	Fail     []int         `json:"failing_effective"`               // effective addresses whose per-recipient status is an error
 	Refuse   []int         `json:"second_target_refuses,omitempty"` // client recipients that a second target of the block refuses (AddRcpt fails there)
-	Level    string        `json:"rewrite_level"` // global | source | destination | both (global 1-to-1, then destination block)
+	Level    string        `json:"rewrite_level"`                   // global | source | destination | both (global 1-to-1, then destination block)
 }
 
 var c09pClient = []string{"alias1@example.org", "alias2@example.org", "plain@example.org", "list@example.org"}
